@@ -1,0 +1,18 @@
+//go:build verif
+
+// Verification hooks: thin exported wrappers around unexported functions so
+// that the correspondence harness in /verif can call them in-process. This
+// file is compiled only with `-tags verif`; it adds code and changes none.
+
+package excelize
+
+// VerifRangeRefToCoordinates exposes rangeRefToCoordinates.
+func VerifRangeRefToCoordinates(ref string) ([]int, error) { return rangeRefToCoordinates(ref) }
+
+// VerifSortCoordinates exposes sortCoordinates.
+func VerifSortCoordinates(c []int) error { return sortCoordinates(c) }
+
+// VerifCoordinatesToRangeRef exposes coordinatesToRangeRef.
+func VerifCoordinatesToRangeRef(c []int, abs ...bool) (string, error) {
+	return coordinatesToRangeRef(c, abs...)
+}
